@@ -42,6 +42,9 @@ pub fn seed() -> i64 {
 }
 
 pub fn ncpu() -> usize {
+    if let Some(n) = std::env::var("VERIF_WORKERS").ok().and_then(|s| s.parse::<usize>().ok()) {
+        return n.max(1);
+    }
     std::thread::available_parallelism()
         .map(|n| n.get())
         .unwrap_or(8)
@@ -378,6 +381,10 @@ impl Scratch {
         let _ = std::fs::remove_dir_all(&root);
         std::fs::create_dir_all(&root)
             .unwrap_or_else(|e| die(&format!("cannot create scratch {}: {e}", root.display())));
+        // Tantivy work directories (tempfile::TempDir) must live on tmpfs too, and be ours.
+        let tmp = root.join("tmp");
+        let _ = std::fs::create_dir_all(&tmp);
+        std::env::set_var("TMPDIR", &tmp);
         Scratch {
             root,
             counter: AtomicUsize::new(0),
